@@ -66,6 +66,41 @@ pub fn run_parent(prop: &str, tier: &str, seed: u64, n_cases: usize, shards: usi
                     };
                     let out = child.stdout.take().expect("stdout");
                     let mut err = child.stderr.take().expect("stderr");
+                    // CPU-time watchdog (load independent): a case that burns more CPU time than
+                    // `PV_CASE_CPU_LIMIT_S` (default 120 s; honest cases take well under a second) is killed
+                    let pid = child.id();
+                    let cur_case = std::sync::Arc::new(AtomicUsize::new(usize::MAX));
+                    let stop = std::sync::Arc::new(std::sync::atomic::AtomicBool::new(false));
+                    let timed_out = std::sync::Arc::new(std::sync::atomic::AtomicBool::new(false));
+                    let wd = {
+                        let (cur_case, stop, timed_out) = (cur_case.clone(), stop.clone(), timed_out.clone());
+                        let limit: f64 = std::env::var("PV_CASE_CPU_LIMIT_S").ok().and_then(|x| x.parse().ok()).unwrap_or(120.0);
+                        std::thread::spawn(move || {
+                            let cpu = || -> Option<f64> {
+                                let st = std::fs::read_to_string(format!("/proc/{pid}/stat")).ok()?;
+                                let rest = st.rsplit_once(')')?.1;
+                                let f: Vec<&str> = rest.split_whitespace().collect();
+                                let ut: f64 = f.get(11)?.parse().ok()?;
+                                let stt: f64 = f.get(12)?.parse().ok()?;
+                                Some((ut + stt) / 100.0)
+                            };
+                            let mut seen = usize::MAX;
+                            let mut base = 0.0;
+                            while !stop.load(Ordering::SeqCst) {
+                                std::thread::sleep(std::time::Duration::from_millis(500));
+                                let c = cur_case.load(Ordering::SeqCst);
+                                let Some(now) = cpu() else { break };
+                                if c != seen {
+                                    seen = c;
+                                    base = now;
+                                } else if c != usize::MAX && now - base > limit {
+                                    timed_out.store(true, Ordering::SeqCst);
+                                    let _ = Command::new("kill").arg("-9").arg(pid.to_string()).status();
+                                    break;
+                                }
+                            }
+                        })
+                    };
                     let err_thread = std::thread::spawn(move || {
                         let mut s = String::new();
                         let _ = std::io::Read::read_to_string(&mut err, &mut s);
@@ -76,6 +111,7 @@ pub fn run_parent(prop: &str, tier: &str, seed: u64, n_cases: usize, shards: usi
                         let Ok(line) = line else { break };
                         if let Some(rest) = line.strip_prefix("B ") {
                             open = rest.trim().parse().ok();
+                            cur_case.store(open.unwrap_or(usize::MAX), Ordering::SeqCst);
                         } else if let Some(rest) = line.strip_prefix("R ") {
                             let mut it = rest.splitn(2, ' ');
                             let idx: usize = it.next().and_then(|x| x.parse().ok()).unwrap_or(usize::MAX);
@@ -85,20 +121,23 @@ pub fn run_parent(prop: &str, tier: &str, seed: u64, n_cases: usize, shards: usi
                                 done.fetch_add(1, Ordering::SeqCst);
                             }
                             open = None;
+                            cur_case.store(usize::MAX, Ordering::SeqCst);
                         }
                     }
                     let status = child.wait();
+                    stop.store(true, Ordering::SeqCst);
+                    let _ = wd.join();
                     let stderr = err_thread.join().unwrap_or_default();
                     let tail: String = stderr.lines().rev().take(12).collect::<Vec<_>>().into_iter().rev().collect::<Vec<_>>().join("\n");
                     match open {
                         Some(idx) => {
-                            let desc = match status {
+                            let desc = if timed_out.load(Ordering::SeqCst) { "cpu-time limit exceeded (killed)".to_string() } else { match status {
                                 Ok(st) => {
                                     use std::os::unix::process::ExitStatusExt;
                                     if let Some(sig) = st.signal() { format!("signal {sig}") } else { format!("exit code {:?}", st.code()) }
                                 }
                                 Err(e) => format!("wait failed: {e}"),
-                            };
+                            } };
                             results.lock().unwrap()[idx] = Some(CaseResult::Aborted(desc, tail));
                             from = idx + 1;
                             respawns += 1;
